@@ -306,7 +306,7 @@ type tvPackage struct {
 
 type tvDisagreement struct {
 	Pkg, Entry string
-	Kind       string // rejected | missing-def | stuck | mismatch | unknown-ident
+	Kind       string // rejected | missing-def | stuck | mismatch | unknown-ident | undefined-name | undefined-field
 	Detail     string
 	Keys       []string
 	GoRes      string
@@ -476,6 +476,11 @@ func compareEmittedMode(c *ev.Ctx, tag string, pkgs []tvPackage, goRes map[strin
 				// an unqualified name that neither the package nor the GooseLang library defines: the emitted
 				// definition refers to something that does not exist
 				kind = "undefined-name"
+				st.Compared++
+			} else if strings.HasPrefix(o.Why, "unknown identifier ?unsupported:") && (strings.Contains(o.Why, " of unknown field ") || strings.Contains(o.Why, ": unknown field ")) {
+				// the emitted text selects / initialises a field that the emitted descriptor of that very struct does
+				// not declare (GooseLang answers #() or ignores the initialiser: never what Go means)
+				kind = "undefined-field"
 				st.Compared++
 			} else if strings.HasPrefix(o.Why, "unknown identifier") || strings.HasPrefix(o.Why, "unknown builtin") {
 				kind = "unknown-ident"
